@@ -110,12 +110,7 @@ class Tap:
             return "rx %d %d %s" % (self.i, frm, phase)
         kind = "garbage"
         if phase == "pake":
-            try:
-                d = json.loads(body.decode("utf-8"))
-                if isinstance(d, dict) and "pake_v1" not in d:
-                    kind = "nopake"
-            except Exception:
-                pass
+            kind = pake_kind(body, self.sent.get("pake"))
         return "rxbad %d %d %s %s" % (self.i, frm if frm is not None else 9, phase, kind)
 
     def _wrap_out(self, obj, name, show):
@@ -209,6 +204,89 @@ class Tap:
         key.got_code = k_wrapper
 
 
+def pake_element(body):
+    """the SPAKE2 element a PAKE body carries, or None when it carries no usable one (not JSON, not
+    an object, no pake_v1, not a hex string) — decided with json/binascii, not with the repo's code"""
+    try:
+        d = json.loads(body.decode("utf-8"))
+        if not isinstance(d, dict) or not isinstance(d.get("pake_v1"), str):
+            return None
+        return bytes.fromhex(d["pake_v1"]) if all(ch in "0123456789abcdefABCDEF" for ch in d["pake_v1"]) \
+            and len(d["pake_v1"]) % 2 == 0 else None
+    except Exception:
+        return None
+
+
+def pake_kind(body, own_body):
+    """nopake = no usable element; refused = an element the SPAKE2 library refuses (malformed, not a
+    group element, wrong side byte, our own element reflected); accepted = a stranger's valid element.
+    Decided with the spake2 library's own group decoding (external behaviour, like NFC)."""
+    elem = pake_element(body)
+    if elem is None:
+        return "nopake"
+    if own_body is not None and elem == pake_element(own_body):
+        return "refused"
+    if elem[:1] != b"S":
+        return "refused"
+    try:
+        from spake2.parameters.ed25519 import ParamsEd25519
+        ParamsEd25519.group.bytes_to_element(elem[1:])
+        return "accepted"
+    except Exception:
+        return "refused"
+
+
+HOSTILE = ["notjson", "deepjson", "jsonlist", "jsonstr", "nokey", "notstr", "nothex", "oddhex", "nonascii", "empty", "short",
+           "long", "wrongside", "nonpoint", "zero", "offcurve", "reflect", "random", "foreign"]
+
+
+def hostile_body(kind, own_body, seed):
+    r = random.Random(seed)
+    j = lambda d: json.dumps(d).encode("utf-8")  # noqa: E731
+    if kind == "notjson":
+        return b"\xff\xfe not json"
+    if kind == "deepjson":
+        return b"[" * 5000          # json.loads gives up with RecursionError (a RuntimeError), not a ValueError
+    if kind == "jsonlist":
+        return b"[1, 2]"
+    if kind == "jsonstr":
+        return b'"pake_v1"'
+    if kind == "nokey":
+        return j({"pake_v2": "00"})
+    if kind == "notstr":
+        return j({"pake_v1": 5})
+    if kind == "nothex":
+        return j({"pake_v1": "zz"})
+    if kind == "oddhex":
+        return j({"pake_v1": "abc"})
+    if kind == "nonascii":
+        return j({"pake_v1": "\u00e9\u00e9"})
+    if kind == "empty":
+        return j({"pake_v1": ""})
+    if kind == "short":
+        return j({"pake_v1": "53" + "00" * 5})
+    if kind == "long":
+        return j({"pake_v1": "53" + "01" * 40})
+    if kind == "wrongside":
+        return j({"pake_v1": "41" + bytes(r.randrange(256) for _ in range(32)).hex()})
+    if kind == "nonpoint":
+        return j({"pake_v1": "53" + "ff" * 32})
+    if kind == "offcurve":
+        # y = 2 is the y-coordinate of no curve point: spake2 raises ed25519_basic.NotOnCurve (a plain Exception)
+        return j({"pake_v1": "53" + "02" + "00" * 31})
+    if kind == "zero":
+        return j({"pake_v1": "53" + "00" * 32})
+    if kind == "reflect":
+        return own_body if own_body is not None else j({"pake_v1": "53"})
+    if kind == "random":
+        return j({"pake_v1": "53" + bytes(r.randrange(256) for _ in range(32)).hex()})
+    if kind == "foreign":
+        from spake2 import SPAKE2_Symmetric
+        sp = SPAKE2_Symmetric(b"some other code", idSymmetric=b"x", entropy_f=lambda n: bytes(r.randrange(256) for _ in range(n)))
+        return j({"pake_v1": sp.start().hex()})
+    raise ValueError(kind)
+
+
 def exc_name(e):
     n = type(e).__name__
     if type(e).__module__.startswith("spake2"):
@@ -223,6 +301,7 @@ class Run:
         self.expect = []
         self.vals = {}
         self.taps = []
+        self.hostile_kind = None
 
     def val(self, b):
         b = bytes(b)
@@ -309,6 +388,14 @@ def corpus(rng):
         out.append(pair_case(rng, codeA="9-" + a + "-z", codeB="9-" + b + "-z"))
     # adversarial stream
     out.append(pair_case(rng, adversary="nopake"))
+    # a hostile PAKE message from a third mailbox participant, after and before the code is known
+    for kind in HOSTILE:
+        out.append(pair_case(rng, adversary="hostile_pake", hostile=kind, hostile_when="after_code"))
+    for kind in ("notjson", "nokey", "nothex", "nonpoint", "offcurve", "wrongside", "foreign", "random"):
+        out.append(pair_case(rng, adversary="hostile_pake", hostile=kind, hostile_when="before_code",
+                             modeA="input_before"))
+    out.append(pair_case(rng, adversary="hostile_pake", hostile="nokey", hostile_when="after_early_version"))
+    out.append(pair_case(rng, adversary="hostile_pake", hostile="nonpoint", hostile_when="after_early_version"))
     out.append(pair_case(rng, adversary="garbage_version"))
     out.append(pair_case(rng, adversary="early_version", shuffle=0))
     out.append(pair_case(rng, early_close="A"))
@@ -343,6 +430,16 @@ def random_case(rng):
         appidB = appidA if rng.random() < 0.8 else appidB
     sends = lambda: [bytes(rng.randrange(256) for _ in range(rng.choice([0, 1, 5]))).hex() or "-"  # noqa: E731
                      for _ in range(rng.choice([0, 0, 1, 2]))]
+    if rng.random() < 0.12 and modeA != "allocate":
+        when = rng.choice(["after_code", "after_code", "before_code", "after_early_version"])
+        if when == "before_code":
+            modeA = "input_before"
+        elif modeA == "input_before":
+            modeA = "set"
+        return pair_case(rng, codeA=codeA, codeB=rng.choice([codeA, codeB]), appidA=appidA, appidB=appidA,
+                         modeA=modeA, modeB=rng.choice(["set", "input_after"]), delegA=rng.random() < 0.5,
+                         delegB=rng.random() < 0.5, sendsA=sends(), sendsB=sends(), early_send=rng.random() < 0.5,
+                         adversary="hostile_pake", hostile=rng.choice(HOSTILE), hostile_when=when)
     return pair_case(rng, codeA=codeA, codeB=codeB, appidA=appidA, appidB=appidB, modeA=modeA, modeB=modeB,
                      delegA=rng.random() < 0.5, delegB=rng.random() < 0.5, sendsA=sends(), sendsB=sends(),
                      early_send=rng.random() < 0.5, shuffle=rng.choice([0, 10, 40, 200]), cross=cross,
@@ -700,11 +797,29 @@ def run_case(case):
             codeB = codeA if not case.get("xformB") else transform(codeA, case["xformB"], rng)
         else:
             declare(codeA)
-            _enter(W, 0, case["modeA"], codeA, step)
+            stepA = step
+            if case["adversary"] == "hostile_pake" and case["hostile_when"] == "before_code":
+                def stepA():
+                    # the stranger's PAKE overtakes our own code (Key.S00 -> S01)
+                    W.settle()
+                    hb = hostile_body(case["hostile"], None, case["seed"])
+                    run.hostile_kind = pake_kind(hb, None)
+                    W.inject(0, "ff" * 5, "pake", hb.hex())
+                    W.settle()
+            _enter(W, 0, case["modeA"], codeA, stepA)
         step()
         if case["early_close"] == "A":
             W.do(["api", 0, "close"])
         adv = case["adversary"]
+        if adv == "hostile_pake" and case["hostile_when"] != "before_code":
+            W.settle()
+            if case["hostile_when"] == "after_early_version":
+                W.inject(0, "ff" * 5, "version", "00" * 40)     # parked by Order, judged right after the PAKE
+                W.settle()
+            hb = hostile_body(case["hostile"], run.taps[0].sent.get("pake"), case["seed"])
+            run.hostile_kind = pake_kind(hb, run.taps[0].sent.get("pake"))
+            W.inject(0, "ff" * 5, "pake", hb.hex())
+            W.settle()
         if adv == "nopake":
             W.settle()
             W.inject(0, "ff" * 5, "pake", json.dumps({"pake_v2": "00"}).encode().hex())
@@ -873,6 +988,33 @@ def oracle(case, W, run, codeA, codeB, met, derived, pair=None, vers=None):
                 for name in ("key", "verifier", "versions", "message"):
                     if evs(c, name):
                         viol.append(("unmet-delivered", f"client {c.index} got {name} without ever sharing a mailbox"))
+    if case["adversary"] == "hostile_pake":
+        # a hostile PAKE message is a "stranger" case: nothing is delivered on either side, the side that got
+        # it fails with WrongPasswordError and with nothing else (no internal error), and unless the element
+        # happened to be a valid one no key is reported either
+        hk = run.hostile_kind
+        tags.append("hostile:%s:%s:%s" % (case["hostile"], case["hostile_when"], hk))
+        for c in (A, B):
+            for name in ("verifier", "versions", "message"):
+                if evs(c, name):
+                    viol.append(("hostile-pake-delivered", f"hostile PAKE ({case['hostile']}, {case['hostile_when']}): client {c.index} got {name} {evs(c, name)}"))
+        if hk in ("nopake", "refused"):
+            if evs(A, "key"):
+                viol.append(("hostile-pake-key", f"hostile PAKE ({case['hostile']}, {case['hostile_when']}): client 0 reported a key"))
+            # exceptions raised into application calls other than the expected NoKeyError of derive_key
+            api_raised = [(a, e) for (a, e) in A.api_errors if a != "derive_key"]
+            raised = [n for (n, _) in A.internal] + [e for (_, e) in api_raised]
+            if "RecursionError" in raised:
+                viol.append(("hostile-pake-deepjson-escapes", f"hostile PAKE ({case['hostile']}, {case['hostile_when']}): a body of deeply nested JSON makes json.loads raise RecursionError (a RuntimeError, not a ValueError), which escapes _SortedKey.got_pake: client 0 closed with {verdict(A)} instead of WrongPasswordError"))
+            elif "NotOnCurve" in raised:
+                viol.append(("hostile-pake-offcurve-escapes", f"hostile PAKE ({case['hostile']}, {case['hostile_when']}): an element that is not on the curve makes spake2 raise NotOnCurve (not a SPAKEError/ValueError), which escapes compute_key: client 0 closed with {verdict(A)} instead of WrongPasswordError"))
+            elif verdict(A) != "WrongPasswordError" or A.internal or api_raised:
+                viol.append(("hostile-pake-verdict", f"hostile PAKE ({case['hostile']}, {case['hostile_when']}): client 0 closed with {verdict(A)}, internal failures {A.internal[:2]}, raised to the application {api_raised[:2]}"))
+        elif hk == "accepted":
+            if (run.taps[0].heard and verdict(A) != "WrongPasswordError") or A.internal:
+                viol.append(("hostile-pake-verdict", f"hostile PAKE ({case['hostile']}, valid foreign element): client 0 heard {run.taps[0].heard} message(s), closed with {verdict(A)}, internal {A.internal[:2]}"))
+        else:
+            tags.append("hostile-not-delivered")
     if case["adversary"] in ("nopake", "garbage_version"):
         # a forged/garbled message must never be accepted as a delivery; the side that got it is scared
         if case["adversary"] == "nopake":
